@@ -101,6 +101,8 @@ def programs(mapping, defines):
                          ("for", "kk", N(0), N(2), [("label", "inl"), ("data", "db", [S("kk")])]),
                          ("block", [("label", "loop"), ("ins", "nop", "", None, None), ("bra", "bne", S("loop")), ("eq", "kk", N(0x66)), ("data", "db", [S("kk")])]),
                          ("data", "db", [S("kk")]), ("bra", "bne", S("loop")), ("data", "dl", [S("loop")])]
+    # an included IPS patch with a run-length record: its records take the copier-header shift like every other block
+    out["ips-include"] = [("org", N(b["a"])), ("data", "db", [N(1), N(2)]), ("incips", "c12p.ips", N(0x10)), ("data", "db", [N(3)])]
     names = {d[0] for d in defines}
     if "cfg.depth" in names:
         out["use-dotted"] = [("org", N(b["a"])), ("data", "dw", [S("cfg.depth")]), ("if", S("cfg.depth"), [("data", "db", [N(0x11)])], None),
@@ -114,7 +116,8 @@ def programs(mapping, defines):
     return out
 
 
-FILES = {"blob.bin": bytes(range(0x30, 0x3B)), "big.bin": bytes(((i * 37) ^ (i >> 7)) & 0xFF for i in range(0x10010))}
+DIFFERENTIAL_ONLY = {"ips-include"}   # compared between front ends and the in-memory API only (the reference lists patch records apart)
+FILES = {"c12p.ips": ips.build([(0x2000, b"\x51\x52\x53", "plain"), (0x2100, (12, 0x7E), "rle"), (0x3000, b"\x54", "plain")]), "blob.bin": bytes(range(0x30, 0x3B)), "big.bin": bytes(((i * 37) ^ (i >> 7)) & 0xFF for i in range(0x10010))}
 
 
 def lattice():
@@ -237,7 +240,7 @@ def run_inproc(i):
         if v.status == "fail":
             viol.append({"key": "frontend:harness-program-not-valid", "msg": f"{name}: reference verdict {v.status} {v.reason}"})
             continue
-        if v.status == "unspec":
+        if v.status == "unspec" or name in DIFFERENTIAL_ONLY:
             # the reference does not define this program (bytes before the first *=): differential comparison only
             if not mem.accepted:
                 viol.append({"key": f"frontend:in-memory-api-fails:map={mapping}", "msg": f"{name}: {mem.brief()} :: {src!r}"})
@@ -302,7 +305,14 @@ def run_inproc(i):
         os.makedirs("outdir", exist_ok=True)
         out2 = "outdir/out2.bin" if i % 2 else "out2.bin"
         prepare_output(out2, stale)
-        argv = ["x816"] + cli_args(fmt, mapping, header, defines, "prog.s", out2, extras=bool(i % 2))
+        src_path = "prog.s"
+        if i % 2 == 0:
+            # the source lives in a sub-directory; -o and the files it names stay relative to the working directory
+            os.makedirs("srcdir", exist_ok=True)
+            with open("srcdir/prog.s", "w") as f_:
+                f_.write(files["prog.s"])
+            src_path = "srcdir/prog.s"
+        argv = ["x816"] + cli_args(fmt, mapping, header, defines, src_path, out2, extras=bool(i % 2))
         saved = sys.argv
         sys.argv = argv
         try:
@@ -336,7 +346,7 @@ def run_subproc(i, pick, tier="quick"):
     for name in sorted(chosen):
         prog = progs[name]
         mem, v, src = in_memory(prog, mapping, defines)
-        if v.status == "fail" or not mem.accepted or (v.status == "ok" and mem.blocks != v.blocks):
+        if v.status == "fail" or not mem.accepted or (v.status == "ok" and name not in DIFFERENTIAL_ONLY and mem.blocks != v.blocks):
             viol.append({"key": f"frontend:in-memory-api-fails:map={mapping}", "msg": f"{name}: {mem.brief()} / reference {v.status}"})
             continue
         files = dict(FILES)
